@@ -789,8 +789,11 @@ where
             for (sidx, sym) in prod.iter().enumerate().skip(sym_idx) {
                 match sym {
                     Symbol::Rule(s_ridx) => {
+                        // The rest of this production must come after the sentence generated
+                        // for `s_ridx`, so suspend it until that has been emitted.
                         st.push((pidx, sidx + 1));
                         st.push((cheapest_prod(*s_ridx), 0));
+                        break;
                     }
                     Symbol::Token(s_tidx) => {
                         s.push(*s_tidx);
